@@ -25,3 +25,12 @@ pub broadcast proof fn lemma_subrange_full<T>(s: Seq<T>)
 {
     assert(s.subrange(0, s.len() as int) =~= s);
 }
+/// pushing keeps the old elements (stated so that it fires whenever `s[i]` and `s.push(x)` are both around)
+pub broadcast proof fn lemma_push_keeps<T>(s: Seq<T>, x: T, i: int)
+    requires 0 <= i < s.len(),
+    ensures #![trigger s.push(x), s[i]] s.push(x)[i] == s[i],
+{}
+pub broadcast proof fn lemma_push_last<T>(s: Seq<T>, x: T)
+    ensures #![trigger s.push(x)] s.push(x)[s.len() as int] == x && s.push(x).len() == s.len() + 1,
+{}
+pub broadcast group group_push { lemma_push_keeps, lemma_push_last }
